@@ -251,6 +251,19 @@ def ocaml_build(name, extract_v, driver_ml, timeout=900):
 def cargo_build(pkgs, release=False, timeout=1800, extra_env=None):
     """Build harness packages against /repo's current working tree (path deps)."""
     h = os.path.join(VERIF, "harness")
+    if REPO != "/repo":
+        # VERIF_REPO=<another checkout> (background seed regressions on a snapshot): same harness sources, path
+        # dependencies redirected, in a scratch copy so that the tracked Cargo.toml files stay as they are
+        alt = os.path.join(CACHE, "harness_alt")
+        shutil.rmtree(alt, ignore_errors=True)
+        shutil.copytree(h, alt)
+        for root, _d, files in os.walk(alt):
+            for fn in files:
+                if fn == "Cargo.toml":
+                    fp = os.path.join(root, fn)
+                    txt = open(fp).read().replace('"/repo/', '"%s/' % REPO)
+                    open(fp, "w").write(txt)
+        h = alt
     lock = os.path.join(h, "Cargo.lock")
     if not os.path.exists(lock):
         shutil.copy(os.path.join(REPO, "Cargo.lock"), lock)
